@@ -46,6 +46,8 @@ KindSet(s) == {s[i] : i \in 1..Len(s)}
 Ops == << "+", "-", "*", "/", "<", "<=", ">", ">=", "==", "!=", "~=", "AMP AMP", "||" >>
 OpToks(o) == IF o = "AMP AMP" THEN <<"AMP", "AMP">> ELSE <<o>>
 
+MaxIntE == <<"9223372036854775807">>
+MinIntE == <<"(", "0", " ", "-", " ", "9223372036854775807", " ", "-", " ", "1", ")">>
 E(ts) == <<"<%=", " ">> \o ts \o <<" ", "%>">>
 C(ts) == <<"<%", " ">> \o ts \o <<" ", "%>">>
 
@@ -130,6 +132,12 @@ FormsOf(fam) ==
                 [n |-> "cforblock", vars |-> 1, src |-> C(<<"contentFor", "(", "a", ")", " ", "LBR", " ", "%>", "x", "<%", " ", "RBR">>) \o E(<<"contentOf", "(", "a", ")">>)],
                 [n |-> "cofdata", vars |-> 1, src |-> C(<<"contentFor", "(", "QUOT", "n", "QUOT", ")", " ", "LBR", " ", "%>", "x", "<%", " ", "RBR">>) \o E(<<"contentOf", "(", "QUOT", "n", "QUOT", ",", " ", "a", ")">>)],
                 [n |-> "partialdata", vars |-> 1, src |-> E(<<"partial", "(", "QUOT", "p", "QUOT", ",", " ", "a", ")">>)],
+                \* loops over the numeric iterators at the ends of the int range (nothing qualifies, or exactly one number does)
+                [n |-> "iterends:until", vars |-> 0, src |-> E(<<"for", " ", "(", "v", ")", " ", "in", " ", "until", "(">> \o MinIntE \o <<")", " ", "LBR", " ", "%>", "<%=", " ", "v", " ", "%>", "<%", " ", "RBR">>)],
+                [n |-> "iterends:betweenmax", vars |-> 1, src |-> E(<<"for", " ", "(", "v", ")", " ", "in", " ", "between", "(">> \o MaxIntE \o <<",", " ", "a", ")", " ", "LBR", " ", "%>", "<%=", " ", "v", " ", "%>", "<%", " ", "RBR">>)],
+                [n |-> "iterends:betweenmin", vars |-> 1, src |-> E(<<"for", " ", "(", "v", ")", " ", "in", " ", "between", "(", "a", ",", " ">> \o MinIntE \o <<")", " ", "LBR", " ", "%>", "<%=", " ", "v", " ", "%>", "<%", " ", "RBR">>)],
+                [n |-> "iterends:rangemin", vars |-> 0, src |-> E(<<"for", " ", "(", "v", ")", " ", "in", " ", "range", "(">> \o MinIntE \o <<",", " ">> \o MinIntE \o <<")", " ", "LBR", " ", "%>", "<%=", " ", "v", " ", "%>", "<%", " ", "RBR">>)],
+                [n |-> "iterends:letuntil", vars |-> 0, src |-> C(<<"let", " ", "r", " ", "=", " ", "until", "(">> \o MinIntE \o <<")">>) \o E(<<"for", " ", "(", "v", ")", " ", "in", " ", "r", " ", "LBR", " ", "%>", "<%=", " ", "v", " ", "%>", "<%", " ", "RBR">>) \o E(<<"r">>)],
                 \* the partial feeder of the context is whatever a is
                 [n |-> "setfeeder", vars |-> 1, src |-> C(<<"let", " ", "partialFeeder", " ", "=", " ", "a">>) \o E(<<"partial", "(", "QUOT", "p", "QUOT", ")">>)] }
     [] fam = "misc" ->
